@@ -37,21 +37,22 @@ SpecOf(r) == IF IsOk(r) THEN <<r.ok>> ELSE <<>>      \* maybe_specifier()
 (* parse_js_module_from_module_info 3756-3788 (JSDoc entries come first).  *)
 (* acc: sequence of [text, code, type, dyn, attr, lf]                      *)
 (***************************************************************************)
-NewDep(text) == [text |-> text, code |-> NONE, type |-> NONE, dyn |-> FALSE, attr |-> "none", lf |-> FALSE]
+NewDep(text, lf) == [text |-> text, code |-> NONE, type |-> NONE, dyn |-> FALSE, attr |-> "none", lf |-> lf]
 IdxOf(acc, text) == { j \in DOMAIN acc : acc[j].text = text }
-Upsert(acc, text, F(_)) ==
+Upsert(acc, text, lf, F(_)) ==
   LET idx == IdxOf(acc, text) IN
-  IF idx = {} THEN Append(acc, F(NewDep(text)))
+  IF idx = {} THEN Append(acc, F(NewDep(text, lf)))
   ELSE LET j == CHOOSE x \in idx : TRUE IN [acc EXCEPT ![j] = F(acc[j])]
 
-RECURSIVE JsDocPass(_, _, _, _, _)
-JsDocPass(items, i, mt, kind, acc) ==
+\* af: targets whose specifier text is an absolute file: URL in this module (remote module importing a local file)
+RECURSIVE JsDocPass(_, _, _, _, _, _)
+JsDocPass(items, i, mt, kind, af, acc) ==
   IF i > Len(items) THEN acc
   ELSE LET it == items[i] IN
        IF it.f = "jsdoc" /\ IsJsLike(mt) /\ IncludeTypes(kind)
        THEN LET F(d) == IF IsNone(d.type) THEN [d EXCEPT !.type = ResolveText(it)] ELSE d
-            IN JsDocPass(items, i + 1, mt, kind, Upsert(acc, TextOf(it), F))
-       ELSE JsDocPass(items, i + 1, mt, kind, acc)
+            IN JsDocPass(items, i + 1, mt, kind, af, Upsert(acc, TextOf(it), it.t \in af, F))
+       ELSE JsDocPass(items, i + 1, mt, kind, af, acc)
 
 EsStep(it, mt, kind, d0) ==
   LET d1 == IF d0.attr = "none" /\ it.a # "none" THEN [d0 EXCEPT !.attr = it.a] ELSE d0    \* 4070-4073
@@ -67,15 +68,16 @@ EsStep(it, mt, kind, d0) ==
        IN IF IncludeTypes(kind) /\ IsNone(d3.type) /\ ~sideErr /\ SpecOf(mt0) # SpecOf(d3.code)
           THEN [d3 EXCEPT !.type = mt0] ELSE d3                                             \* 4126-4149
 
-RECURSIVE EsPass(_, _, _, _, _)
-EsPass(items, i, mt, kind, acc) ==
+RECURSIVE EsPass(_, _, _, _, _, _)
+EsPass(items, i, mt, kind, af, acc) ==
   IF i > Len(items) THEN acc
   ELSE LET it == items[i] IN
        IF it.f = "jsdoc" \/ (it.f = "type" /\ ~IncludeTypes(kind))
-       THEN EsPass(items, i + 1, mt, kind, acc)
-       ELSE LET F(d) == EsStep(it, mt, kind, d) IN EsPass(items, i + 1, mt, kind, Upsert(acc, TextOf(it), F))
+       THEN EsPass(items, i + 1, mt, kind, af, acc)
+       ELSE LET F(d) == EsStep(it, mt, kind, d) IN EsPass(items, i + 1, mt, kind, af, Upsert(acc, TextOf(it), it.t \in af, F))
 
-FillDeps(items, mt, kind) == EsPass(items, 1, mt, kind, JsDocPass(items, 1, mt, kind, <<>>))
+FillDeps(items, mt, kind, af) == EsPass(items, 1, mt, kind, af, JsDocPass(items, 1, mt, kind, af, <<>>))
+AbsFile(w, s) == IF w.sch[s] # "file" THEN { t \in DOMAIN w.sch : w.sch[t] = "file" } ELSE {}
 
 (***************************************************************************)
 (* admission: parse_module_source_and_info 3228-3427                       *)
@@ -135,7 +137,7 @@ VisitDeps(st, deps, i, o, m, out) ==
 VisitJs(w, st, s, o) ==
   LET mt0 == w.ext[s]
       mt == IF mt0 = "noext" THEN "js" ELSE mt0      \* only a root can be admitted without extension
-      deps0 == FillDeps(w.mods[s].items, mt, o.kind)
+      deps0 == FillDeps(w.mods[s].items, mt, o.kind, AbsFile(w, s))
       tdep == IF IncludeTypes(o.kind) /\ ~IsTypedMt(mt) /\ w.mods[s].st # "-" THEN Ok(w.mods[s].st) ELSE NONE
       visit == IncludeCode(o.kind) \/ IsNone(tdep)
       r == IF visit THEN VisitDeps(st, deps0, 1, o, s, <<>>) ELSE <<st, <<>>>>
@@ -158,10 +160,12 @@ Consume(w, st, o) ==
      ELSE IF resp.k = "external" THEN
           [st0 EXCEPT !.slots = Put(st0.slots, s, [k |-> "mod", cls |-> "ext", mt |-> "ext", chk |-> "no", deps |-> <<>>, tdep |-> NONE, tdepText |-> ""])]
      ELSE IF resp.k = "redirect" THEN
-          IF resp.to = s THEN st0          \* F14: check_specifier sees no change, re-load finds the pending slot
-          ELSE IF it.count >= o.maxRedirects THEN [st0 EXCEPT !.slots = Put(st0.slots, s, ErrSlot("toomanyredirects", it.ref))]
-          ELSE LET st1 == [st0 EXCEPT !.slots = Del(st0.slots, s),
-                                      !.redirects = IF s \in DOMAIN st0.redirects THEN st0.redirects ELSE Put(st0.redirects, s, resp.to)]
+          IF it.count >= o.maxRedirects THEN [st0 EXCEPT !.slots = Put(st0.slots, s, ErrSlot("toomanyredirects", it.ref))]
+          ELSE LET \* check_specifier/add_redirect: the pending slot of the requested specifier goes away; a redirect
+                   \* to the requested specifier itself is not recorded (after the fix of F14 the slot is removed
+                   \* as well, so the re-load counts up to the limit and ends in TooManyRedirects)
+                   st1 == [st0 EXCEPT !.slots = Del(st0.slots, s),
+                                      !.redirects = IF s \in DOMAIN st0.redirects \/ resp.to = s THEN st0.redirects ELSE Put(st0.redirects, s, resp.to)]
                IN LoadC(st1, resp.to, it.root, it.dyn, it.ref, it.attr, it.count + 1)
      ELSE LET adm == Admit(w.ext[s], it.attr, it.root, it.dyn) IN
           IF adm = "json" THEN
@@ -222,7 +226,7 @@ NoPending(g) == \A s \in DOMAIN g.slots : g.slots[s].k # "pending"
 FollowedTargets(w, s, o) ==      \* targets of the followed dependencies of module s (as admitted JS)
   LET mt0 == w.ext[s]
       mt == IF mt0 = "noext" THEN "js" ELSE mt0
-      deps == FillDeps(w.mods[s].items, mt, o.kind)
+      deps == FillDeps(w.mods[s].items, mt, o.kind, AbsFile(w, s))
       tdep == IF IncludeTypes(o.kind) /\ ~IsTypedMt(mt) /\ w.mods[s].st # "-" THEN {w.mods[s].st} ELSE {}
       visit == IncludeCode(o.kind) \/ tdep = {}
       fromDeps == IF ~visit THEN {} ELSE
